@@ -152,6 +152,7 @@ func runC03(c *Ctx) {
 			continue
 		}
 		r := newRunner(c, inst, false, false, false)
+		r.EnableFsTrack()
 		bucket := impl.SingleBucketName
 		if inst.IsSingle() {
 			r.tell("mkbucket " + hx(bucket))
@@ -363,6 +364,7 @@ func runC04(c *Ctx) {
 			continue
 		}
 		r := newRunner(c, inst, false, false, false)
+		r.EnableFsTrack()
 		bucket := impl.SingleBucketName
 		l, o := r.MkBucket(bucket)
 		r.judgeProj(l, o, "setup", ident, nil)
@@ -467,6 +469,7 @@ func runC04(c *Ctx) {
 				continue
 			}
 			r := newRunner(c, inst, false, fail, false)
+			r.EnableFsTrack()
 			bucket := impl.SingleBucketName
 			if inst.IsSingle() {
 				r.tell("mkbucket " + hx(bucket))
